@@ -77,10 +77,36 @@ def generate(repo):
             and isinstance(bare.args[0], ast.Constant) and isinstance(bare.args[0].value, str)):
         raise ExtractError('BARE_DISALLOWED: unrecognised')
     bare_s = ''.join(sorted(set(bare.args[0].value)))
-    # the .pyx twin: only its BARE_DISALLOWED literal can be tied statically
+    # the .pyx twin (cannot be built here): tie its literal tables statically.
     pyx = (repo / 'src/srctools/_tokenizer.pyx').read_text(encoding='utf-8')
     m = re.search(r"^DEF BARE_DISALLOWED = (b'(?:[^'\\]|\\.)*')", pyx, re.M)
     pyx_bare = ''.join(sorted(set(ast.literal_eval(m.group(1)).decode('latin-1')))) if m else None
+    def blit(x):
+        return ast.literal_eval(x).decode('latin-1')
+    BL = r"""(b'(?:[^'\\]|\\.)'|b"(?:[^"\\]|\\.)")"""
+    pyx_tables = None
+    try:
+        # decoder chain:  [el]if escape_char == b'X':\n next_char = b'Y'
+        dec = [(blit(a), blit(b)) for a, b in re.findall(r"if escape_char == " + BL + r":\s*\n\s*next_char = " + BL, pyx)]
+        mi = re.search(r"elif escape_char in \(([^)]*)\):\s*\n(?:\s*#.*\n)*\s*next_char = escape_char", pyx)
+        ident = [blit(x) for x in re.findall(BL, mi.group(1))] if mi else []
+        dec += [(c, c) for c in ident]
+        # encoder chain:  [el]if letter == b'Y':\n j = _write_escape(out_buff, j, b'X')
+        enc = [(blit(b), blit(a)) for a, b in re.findall(r"if letter == " + BL + r":\s*\n\s*j = _write_escape\(out_buff, j, " + BL + r"\)", pyx)]
+        mlf = re.search(r"if letter == " + BL + r" and not multiline:\s*\n\s*j = _write_escape\(out_buff, j, " + BL + r"\)", pyx)
+        if dec and enc and mlf and blit(mlf.group(1)) == '\n':
+            enc_single = enc + [(blit(mlf.group(2)), '\n')]
+            produced_single = {c for _, c in enc_single}
+            produced_multi = {c for _, c in enc}
+            # every produced pair must be decodable by the same symbol, else the table view is meaningless
+            if all((sym, c) in dec for sym, c in enc_single):
+                pyx_tables = {
+                    'escapes': dec,
+                    'exclSingle': ''.join(c for _, c in dec if c not in produced_single),
+                    'exclMulti': ''.join(c for _, c in dec if c not in produced_multi),
+                }
+    except Exception:
+        pyx_tables = None
 
     L = []
     L.append('import Srctools.Model.Tok')
@@ -99,6 +125,19 @@ def generate(repo):
     L.append('')
     L.append('/-- BARE_DISALLOWED of the Cython twin (sorted), or none if not found. -/')
     L.append('def pyxBareDisallowed : Option (List Char) := ' + ('none' if pyx_bare is None else 'some ' + lean_str_chars(pyx_bare)))
+    L.append('')
+    L.append('/-- Escape tables read off the if/elif chains of `_tokenizer.pyx` (`_handle_string` decoder,')
+    L.append('`escape_text` encoder); `exclX` = decodable characters the encoder does not produce in that mode.')
+    L.append('none when the chains are no longer recognised. Operators/bare set are copied from the .py tables. -/')
+    if pyx_tables is None:
+        L.append('def pyxTables : Option Tok.Tables := none')
+    else:
+        L.append('def pyxTables : Option Tok.Tables := some {')
+        L.append('  escapes := [' + ', '.join(f'({lean_char(k)}, {lean_char(v)})' for k, v in pyx_tables['escapes']) + ']')
+        L.append('  exclSingle := ' + lean_str_chars(pyx_tables['exclSingle']))
+        L.append('  exclMulti := ' + lean_str_chars(pyx_tables['exclMulti']))
+        L.append('  operators := tables.operators')
+        L.append('  bareDisallowed := ' + (lean_str_chars(pyx_bare) if pyx_bare is not None else '[]') + ' }')
     L.append('')
     L.append('end Gen.Tok')
     return '\n'.join(L) + '\n'
